@@ -838,3 +838,79 @@ def check_column_layout(ctx, rep):
     else:
         rep.bad("T-LAYOUT", "T-LAYOUT:column:space-between-name-and-meta", w.where(meta), "column meta follows the column name without a separating space: the reader sees one long identifier / rejects the line")
     return 1
+
+
+# ---------------------------------------------------------------------- R-WRITEALL
+def check_write_methods(ctx, rep, files=("encoding/zinc/encode.rs",)):
+    """encoders hand bytes to the sink only through write_all / write_fmt: a bare Write::write may accept fewer bytes
+    than offered (its count would have to be checked), silently truncating the output on a slow sink"""
+    prog = ctx.prog
+    n = 0
+    for b in prog.bodies.values():
+        if not b.file.endswith(files):
+            continue
+        k = 0
+        for bi, t in b.calls():
+            c = callee_of(t)
+            if c is None:
+                continue
+            fn = strip_generics(c["fn"])
+            if not fn.startswith("std::io::Write::"):
+                continue
+            n += 1
+            meth = fn.split("::")[-1]
+            key = "write-method:%s:%s#%d" % (b.short, meth, k)
+            k += 1
+            if meth in ("write_all", "write_fmt", "flush"):
+                rep.ok("R-WRITEALL", key, b.where(bi), "%s delivers every byte or fails" % meth)
+            else:
+                rep.bad("R-WRITEALL", "R-WRITEALL:write-method:%s:%s" % (b.short, meth), b.where(bi), "%s calls Write::%s: a short write drops the rest of the fragment without any error" % (b.short.split("::")[-1], meth))
+    return n
+
+
+def check_element_encoding(ctx, rep):
+    """collection writers encode their Value elements through zinc_encode (which carries the nesting flag), never through
+    Value::to_zinc / Grid::to_zinc (which restart at top level and would write a nested grid without << >>)"""
+    prog = ctx.prog
+    n = 0
+    for b in prog.bodies.values():
+        if not b.file.endswith("encoding/zinc/encode.rs"):
+            continue
+        if b.rec.get("name") in ("to_zinc_string",):
+            continue
+        for bi, t in b.calls():
+            nm = strip_generics(mir.callee_name(t) or "")
+            if nm in ("<haystack::val::value::Value as haystack::encoding::zinc::encode::ToZinc>::to_zinc", "<haystack::val::grid::Grid as haystack::encoding::zinc::encode::ToZinc>::to_zinc"):
+                n += 1
+                rep.bad("T-NEST", "T-NEST:element-via-to_zinc:%s" % b.short, b.where(bi), "%s encodes an element through %s, which restarts at top level: a grid in that position is written without << >>" % (b.short.split("::")[-1], nm.split(" as ")[0].split("::")[-1] + "::to_zinc"))
+    rep.ok("T-NEST", "elements-never-via-top-level-to_zinc", "-", "no collection writer calls Value::to_zinc / Grid::to_zinc on an element") if n == 0 else None
+    return n
+
+
+def check_cell_presence_only(ctx, rep):
+    """a grid cell is left empty exactly when the row has no tag of that column: the cell write is guarded by the presence
+    test of row.get(col.name) and by nothing that depends on the tag's value"""
+    prog = ctx.prog
+    w = None
+    for b in prog.bodies.values():
+        if b.short == "<haystack::val::grid::Grid as haystack::encoding::zinc::encode::ZincEncode>::zinc_encode":
+            w = b
+    if w is None:
+        rep.gap("Grid writer", "-", "not found")
+        return 0
+    n = 0
+    for bi, t in w.calls():
+        nm = strip_generics(mir.callee_name(t) or "")
+        if not nm.endswith("Value as haystack::encoding::zinc::encode::ZincEncode>::zinc_encode"):
+            continue
+        n += 1
+        gs = G.guards_at(w, bi)
+        pres = [g for g in gs if g.a is not None and g.a.kind == "discr" and g.op == "Eq" and g.b.v == 1 and g.a.args and g.a.args[0].kind == "call" and re.search(r"(BTreeMap|HaystackDict>)::get$", g.a.args[0].v)]
+        other = [g for g in gs if g.a is not None and g.a.kind == "discr" and g.op == "Eq" and g.b.v == 1 and g.a.args and g.a.args[0].kind == "call" and re.search(r"Option::(filter|and_then|map|or|xor|take_if|filter_map)", g.a.args[0].v)]
+        val_dep = [g for g in gs if g.a is not None and g.a.kind == "call" and re.search(r"Value::(is_|has_)", g.a.v)]
+        key = "grid-cell:presence-only#%d" % (n - 1)
+        if pres and not other and not val_dep:
+            rep.ok("T-CELL", key, w.where(bi), "cell written iff row.get(column name) is Some")
+        else:
+            rep.bad("T-CELL", "T-CELL:grid-cell:presence-only", w.where(bi), "the grid cell write depends on more than the tag's presence (%s): some present tags are written as empty cells and are lost when read back" % (other or val_dep or "no direct get() presence test"))
+    return n
